@@ -166,6 +166,22 @@ def check_tree_faults(out, case):
                 nt.append("%s|%s|%s|%s" % (tkey, q, ",".join(d.path for d in plan), "dir"))
                 out.classes.append("dir-fault-nontrivial")
             out.classes.append("dir-faults=%d" % len(plan))
+        # (i') a search root that does not exist / is not a directory, next to a good root: rows of the good root intact
+        if case["query"] in ("meta", "content") and not case["mode"]:
+            fname = next((e.name for e in ents if e.kind == "f" and e.level == 1 and " " not in e.name), None)
+            for bad, label in (("no-such-dir", "missing-root"), (fname, "file-as-root")):
+                if bad is None:
+                    continue
+                q2 = (qt % "").replace(" from . ", " from ., %s " % bad)
+                rows, res = run_nobody(out, base, q2, ncols)
+                if rows is None:
+                    continue
+                if collections.Counter(rows) != collections.Counter(control):
+                    out.add("C17/bad-root/%s/rows" % label, query=q2, got=len(rows), want=len(control))
+                if res.status != 1 or bad.encode() not in res.err:
+                    out.add("C17/bad-root/%s/status-or-message" % label, query=q2, status=res.status, stderr=res.err[:200])
+                nt.append("%s|%s|%s" % (tkey, q2, label))
+                out.classes.append("bad-root")
         # (ii) unreadable files
         if case["file_faults"] and files and case["query"] != "meta-ordered":
             victims = files[:case["file_faults"]]
